@@ -12,10 +12,14 @@
 static_assert(std::is_same<std::vector<int>, igris::vector<int, std::allocator<int>>>::value, "compat/std/vector must alias igris::vector");
 
 // comparators as in C02.cpp: less (default), greater, by last digit, greater on the decimal text
-static FlatOps<std::map<int, Box>, std::set<Box>, Box, Box, int, false> g_ops0;
-static FlatOps<std::map<int, Box, std::greater<int>>, std::set<Box, std::greater<Box>>, Box, Box, int, false> g_ops1;
-static FlatOps<std::map<int, Box, ByLastDigit>, std::set<Box, ByLastDigit>, Box, Box, int, false> g_ops2;
-static FlatOps<std::map<int, Box, TextGreater>, std::set<Box, TextGreater>, Box, Box, int, false> g_ops3;
+// round 3b: with the failing test allocator FA (flat_ops.h) handed through std::map / std::set -> flat_map / flat_set ->
+// the storage igris::vector
+using MA = FA<std::pair<int, Box>>;
+using SA = FA<Box>;
+static FlatOps<std::map<int, Box, std::less<int>, MA>, std::set<Box, std::less<Box>, SA>, Box, Box, int, false> g_ops0;
+static FlatOps<std::map<int, Box, std::greater<int>, MA>, std::set<Box, std::greater<Box>, SA>, Box, Box, int, false> g_ops1;
+static FlatOps<std::map<int, Box, ByLastDigit, MA>, std::set<Box, ByLastDigit, SA>, Box, Box, int, false> g_ops2;
+static FlatOps<std::map<int, Box, TextGreater, MA>, std::set<Box, TextGreater, SA>, Box, Box, int, false> g_ops3;
 static FlatBase *g_ops = &g_ops0;
 
 std::string c02_compat(const std::string &line)
